@@ -813,7 +813,10 @@ TIEBREAK_KINDS = ["eq", "srv-greater", "srv-smaller", "txt-greater", "txt-smalle
 def all_queries(s, ifidx, v4):
     ty, sub, full, host, addrs, txt = svc_fields(s)
     fl = name_labels(full)
-    qs = [[(ty, 12)], [(fl, 33)], [(fl, 16)], [(fl, 255)], [(host, 1)], [(host, 28)], [(host, 255)]]
+    qs = [[(ty, 12)], [(fl, 33)], [(fl, 16)], [(fl, 255)], [(host, 1)], [(host, 28)], [(host, 255)],
+          [("_services._dns-sd._udp.local.", 12)]]
+    if sub:
+        qs.append([(sub, 12)])
     return [q_dgram(None, ifidx, v4, q) for q in qs]
 
 
@@ -1265,3 +1268,101 @@ def project_na(case_line, raw):
             if got != [want]:
                 bad.append("unregister-%s=%s(want %s)" % (ch, got, want))
     return "NA ok" if not bad else "NA bad " + " ".join(bad)
+
+
+# --------------------------------------------------------------------------- round 8 families
+
+def shared_queries(s, ifidx, v4):
+    """type, subtype and service-type enumeration questions for s"""
+    ty, sub, full, host, addrs, txt = svc_fields(s)
+    qs = [[(ty, 12)], [("_services._dns-sd._udp.local.", 12)]]
+    if sub:
+        qs.append([(sub, 12)])
+    return [q_dgram(None, ifidx, v4, q) for q in qs]
+
+
+def gen_shared_record_query_history(rng, hid):
+    """Questions for the shared records (type PTR, subtype PTR, service-type enumeration) while the
+    service is NOT yet announced on the interface: during the probing window of a registration, on an
+    interface that appears later (addr_auto), and while the name is probed again after a rename."""
+    mode = rng.choice(["window", "window", "later-if", "rename"])
+    seed = rng.choice(list(FIRST_JITTER))
+    T = T0 + FIRST_JITTER[seed]
+    ty = rng.choice(["_t._tcp.local.", "_s1._sub._t._tcp.local.", "_u._udp.local."])
+    s = svc(ty, rng.choice(["inst", "Inst", "dev-1"]), rng.choice(HOSTS), "192.168.1.10", 80, [])
+    calls = [{"op": "monitor", "ch": "m"}]
+    cfg = "v4"
+    other = None
+    if rng.random() < 0.35:
+        # a second service of the SAME type: announced at once (no probing) or probing as well
+        other = svc(ty, "other", "oh.local.", "192.168.1.10", 81, [], False if rng.random() < 0.5 else None)
+    if mode == "later-if":
+        s = dict(s, ips="auto")
+    steps = [{"t": T0, "d": 0, "calls": calls + [{"op": "register", "svc": s}] + ([{"op": "register", "svc": other}] if other else [])}]
+    if mode == "window":
+        for ph in sorted(rng.sample([-100, -1, 0, 1, 100, 249, 250, 300, 499, 500, 600, 749], rng.choice([2, 3, 5]))):
+            at_time(steps, T + ph, rng.random() < 0.5, dgrams=[rng.choice(shared_queries(s, 2, True))])
+        steps.append({"run_until": T + 2500})
+    elif mode == "later-if":
+        eth = [{"k": "Name", "v": "eth0"}]
+        steps.append({"run_until": T + 2000})
+        steps.append({"t": T + 2000, "d": 0, "calls": [{"op": "disable_interface", "kinds": eth}]})
+        steps.append({"t": T + 2300, "d": 0, "calls": [{"op": "enable_interface", "kinds": eth}]})
+        for off in sorted(rng.sample([1, 50, 200, 260, 400, 600, 740], 3)):
+            steps.append({"run_until": T + 2300 + off})
+            steps.append({"t": T + 2300 + off, "d": 0, "dgrams": [rng.choice(shared_queries(dict(s, ips="192.168.1.10"), 2, True))]})
+        steps.append({"run_until": T + 5500})
+    else:
+        # a conflicting SRV while probing: the instance is renamed and probed again
+        ph = rng.choice([100, 300, 600])
+        at_time(steps, T + ph, False, dgrams=[r_dgram(2, True, conflict_answers(rng, s, cfg, "srv-port"))])
+        for off in sorted(rng.sample([10, 100, 260, 400, 600, 740, 900], 3)):
+            steps.append({"run_until": T + ph + off})
+            steps.append({"t": T + ph + off, "d": 0, "dgrams": [rng.choice(shared_queries(s, 2, True))]})
+        steps.append({"run_until": T + ph + 3000})
+    for q in shared_queries(s if mode != "later-if" else dict(s, ips="192.168.1.10"), 2, True):
+        steps.append({"t": steps[-1].get("run_until", steps[-1].get("t")) + 10, "d": 0, "dgrams": [q]})
+    return {"id": hid, "t0": T0, "daemons": [{"seed": seed, "ifaces": IFCFGS[cfg]}], "link": "none", "steps": steps,
+            "meta": {"family": "sharedq", "mode": mode}}
+
+
+def gen_shared_host_history(rng, hid):
+    """Two or three services share a host name; a conflicting address record renames the host while
+    they probe; later one service is unregistered; then questions for the rest (old and new host name),
+    an update (re-registration with another port), and the unregistration of the rest."""
+    cfg = rng.choice(["v4", "v4", "dual"])
+    seed = rng.choice(list(FIRST_JITTER))
+    T = T0 + FIRST_JITTER[seed]
+    host = rng.choice(["sh.local.", "h.local.", "box.local."])
+    n = rng.choice([2, 2, 3])
+    addrs = ADDRS[cfg][:2] if cfg == "dual" else ADDRS[cfg][:1]
+    svcs = [svc(rng.choice(["_t._tcp.local.", "_u._udp.local."]), "sh%d" % k, host, ",".join(addrs), 8000 + k, []) for k in range(n)]
+    steps = [{"t": T0, "d": 0, "calls": [{"op": "monitor", "ch": "m"}] + [{"op": "register", "svc": x} for x in svcs]}]
+    ph = rng.choice([50, 200, 300, 500, 700])
+    kind = rng.choice(["a", "a", "aaaa"] if cfg == "dual" else ["a"])
+    at_time(steps, T + ph, rng.random() < 0.5, dgrams=[r_dgram(2, True, conflict_answers(rng, svcs[0], cfg, kind))])
+    t = T + ph + 3000
+    steps.append({"run_until": t})
+    gone = rng.randrange(n)
+    steps.append({"t": t, "d": 0, "calls": [{"op": "unregister", "name": fullname_of(svcs[gone]), "ch": "u0"}]})
+    steps.append({"run_until": t + 300})
+    t += 300
+    rest = [x for k, x in enumerate(svcs) if k != gone]
+    qs = []
+    for x in rest:
+        qs += all_queries(x, 2, True) + renamed_queries(x, 2, True)
+    rng.shuffle(qs)
+    for q in qs[:rng.choice([4, 8, 12])]:
+        t += 10
+        steps.append({"t": t, "d": 0, "dgrams": [q]})
+    if rng.random() < 0.6:
+        t += 50
+        steps.append({"t": t, "d": 0, "calls": [{"op": "register", "svc": dict(rest[0], port=4242)}]})
+        steps.append({"run_until": t + 2500})
+        t += 2500
+    for k, x in enumerate(rest):
+        t += 20
+        steps.append({"t": t, "d": 0, "calls": [{"op": "unregister", "name": fullname_of(x), "ch": "u%d" % (k + 1)}]})
+    steps.append({"run_until": t + 400})
+    return {"id": hid, "t0": T0, "daemons": [{"seed": seed, "ifaces": IFCFGS[cfg]}], "link": "none", "steps": steps,
+            "meta": {"family": "sharedhost", "cfg": cfg, "ph": ph, "kind": kind, "gone": gone}}
